@@ -73,6 +73,11 @@ impl<'de> Deserialize<'de> for HashedClaim {
             })
         } else {
             let hc = HashedClaimSerdes::deserialize(d)?;
+            if hc.print_friendly && core::str::from_utf8(&hc.value).is_err() {
+                return Err(serde::de::Error::custom(
+                    "print friendly hashed claim is not valid UTF-8",
+                ));
+            }
             Ok(HashedClaim {
                 value: hc.value,
                 print_friendly: hc.print_friendly,
